@@ -124,6 +124,17 @@ def ones_like(a, dtype=None, **k):
 
 
 @_ov
+def where(*args, **k):
+  r = _np.where(*args, **k)
+  # three-argument form used to build a float buffer that is later written element-wise: object array in symbolic mode
+  if _Flag.on and len(args) == 3 and isinstance(r, _np.ndarray) and r.dtype == _np.float64:
+    return core.const_array(r)
+  if isinstance(r, _np.ndarray) and r.dtype == object and not isinstance(r, SymArr):
+    return r.view(SymArr)
+  return r
+
+
+@_ov
 def full(shape, fill_value, dtype=None, **k):
   # a float buffer that the code later writes into element-wise: object array in symbolic mode (an integer fill keeps NumPy's
   # integer buffer: that is real behaviour -- later float assignments are truncated)
